@@ -107,6 +107,7 @@ func c20oracle(what string, extra J) {
 // how the text reaches the loader: nil = ParseCsvTextIntoTable (the engine's route); otherwise the file route
 // (DataSet.Load of a meta-file naming one table file that holds the text)
 var c20fileDir string
+var c20LargeRecipe string
 
 func c20loadViaFile(text string) (ds *csv.DataSet, table dataset.Table, dsErr, tableErr error) {
 	tablePath := filepath.Join(c20fileDir, "t.csv")
@@ -132,7 +133,20 @@ func c20caseVia(text string, class string, viaFile bool) {
 	}
 	c20stats["text_"+class]++
 	records, readErr := c20reader(text)
-	cj := J{"kind": "case", "class": class, "text": c20hex(text)}
+	// a LARGE generated text (c20LargeRecipe != "") is judged by the implementation-side oracle only: its case is not
+	// emitted for the Coq correspondence (a megabyte string literal is out of vm_compute's reach) and reports carry the
+	// recipe instead of the text
+	large := c20LargeRecipe != ""
+	thex := c20hex(text)
+	emitCase := func(j J) {
+		if !large {
+			emit(j)
+		}
+	}
+	if large {
+		thex = "(large generated text) " + c20LargeRecipe
+	}
+	cj := J{"kind": "case", "class": class, "text": thex}
 	if readErr != nil {
 		cj["csv"] = nil
 		c20stats["reader_error"]++
@@ -175,26 +189,26 @@ func c20caseVia(text string, class string, viaFile bool) {
 	if panicked {
 		cj["outcome"] = "panic"
 		c20stats["outcome_panic"]++
-		emit(cj)
-		c20oracle("loader panicked", J{"text": textShown, "text_hex": c20hex(text), "panic": what, "class": class})
+		emitCase(cj)
+		c20oracle("loader panicked", J{"text": textShown, "text_hex": thex, "panic": what, "class": class})
 		return
 	}
 	if dsErr != nil || tableErr != nil || table == nil {
 		cj["outcome"] = "rejected"
 		c20stats["outcome_rejected"]++
-		emit(cj)
+		emitCase(cj)
 		if (dsErr != nil) != (tableErr != nil) {
-			c20oracle("error reported but table present (or the reverse)", J{"text": textShown, "text_hex": c20hex(text), "class": class})
+			c20oracle("error reported but table present (or the reverse)", J{"text": textShown, "text_hex": thex, "class": class})
 		}
 		if readErr == nil && len(records) > 0 {
-			c20oracle("well-formed csv text rejected", J{"text": textShown, "text_hex": c20hex(text), "error": fmt.Sprint(dsErr), "class": class})
+			c20oracle("well-formed csv text rejected", J{"text": textShown, "text_hex": thex, "error": fmt.Sprint(dsErr), "class": class})
 		}
 		return
 	}
 	cj["outcome"] = "loaded"
 	c20stats["outcome_loaded"]++
 	if readErr != nil || len(records) == 0 {
-		c20oracle("text without records (or with a reader error) was loaded", J{"text": textShown, "text_hex": c20hex(text), "class": class})
+		c20oracle("text without records (or with a reader error) was loaded", J{"text": textShown, "text_hex": thex, "class": class})
 	}
 	ht, isHeadings := table.(dataset.HeadingsTable)
 	if !isHeadings {
@@ -213,8 +227,8 @@ func c20caseVia(text string, class string, viaFile bool) {
 		cj["dims"] = nil
 		cj["cells"] = [][]J{}
 		cj["probes"] = [][]interface{}{}
-		emit(cj)
-		c20oracle("ColumnAndRowSize panicked on a loaded table", J{"text": textShown, "text_hex": c20hex(text), "panic": dimsWhat, "class": class})
+		emitCase(cj)
+		c20oracle("ColumnAndRowSize panicked on a loaded table", J{"text": textShown, "text_hex": thex, "panic": dimsWhat, "class": class})
 		return
 	}
 	cj["dims"] = []uint{cols, rows}
@@ -258,7 +272,7 @@ func c20caseVia(text string, class string, viaFile bool) {
 	probe(1000, 0)
 	probe(0, 1000)
 	cj["probes"] = probes
-	emit(cj)
+	emitCase(cj)
 
 	// ---- implementation-side oracle: the property itself, evaluated on the real outputs ----
 	if readErr != nil || len(records) == 0 {
@@ -269,11 +283,11 @@ func c20caseVia(text string, class string, viaFile bool) {
 		okHeader = hdr[i] == records[0][i]
 	}
 	if !okHeader {
-		c20oracle("header differs from the first record", J{"text": textShown, "text_hex": c20hex(text), "class": class})
+		c20oracle("header differs from the first record", J{"text": textShown, "text_hex": thex, "class": class})
 	}
 	if cols != uint(len(records[0])) || rows != uint(len(records)-1) {
 		c20oracle("reported dimensions differ from (header columns, data rows)",
-			J{"text": textShown, "text_hex": c20hex(text), "cols": cols, "rows": rows, "class": class})
+			J{"text": textShown, "text_hex": thex, "cols": cols, "rows": rows, "class": class})
 		return
 	}
 	for r := uint(0); r < rows; r++ {
@@ -283,7 +297,7 @@ func c20caseVia(text string, class string, viaFile bool) {
 			var s string
 			p, _ := protect(func() { v = table.Cell(c, r); s = table.CellString(c, r) })
 			if p {
-				c20oracle("cell below the reported dimensions cannot be read", J{"text": textShown, "text_hex": c20hex(text), "class": class})
+				c20oracle("cell below the reported dimensions cannot be read", J{"text": textShown, "text_hex": thex, "class": class})
 				continue
 			}
 			if s != f {
@@ -551,6 +565,30 @@ func runC20(args []string) {
 			if v, ok := c20sameLengthVariant(t, rng); ok {
 				c20caseVia(v, "replaced_same_length", true)
 				c20stats["file_replaced_same_length"]++
+			}
+		}
+	}
+	// tables larger than the usual buffer and limit sizes (64 KiB, 1 MiB, a few MiB), by both routes: the heading is
+	// padded so that the size marks fall on a row boundary, inside the last column and inside an earlier column
+	{
+		sizes := []int{70000, 1100000}
+		if tier == "thorough" {
+			sizes = []int{70000, 600000, 1100000, 2200000, 4300000}
+		}
+		for _, size := range sizes {
+			for pad := 0; pad < 6; pad++ {
+				var sb strings.Builder
+				sb.WriteString("id,label" + strings.Repeat("x", pad*3) + ",amount\n")
+				rows := 0
+				for sb.Len() < size {
+					sb.WriteString(fmt.Sprintf("%d,row %d,%d.25\n", rows, rows, rows))
+					rows++
+				}
+				c20LargeRecipe = fmt.Sprintf("heading 'id,label'+%d*'x'+',amount', then rows 'i,row i,i.25' for i = 0..%d (%d bytes)", pad*3, rows-1, sb.Len())
+				c20caseVia(sb.String(), "large_table", false)
+				c20caseVia(sb.String(), "large_table", true)
+				c20LargeRecipe = ""
+				c20stats["large_tables"]++
 			}
 		}
 	}
